@@ -224,8 +224,8 @@ def is_dynamic_default(text, base):
     # ISO date / time / dateTime literals (with zone offsets) are literals whatever the question type
     t = re.sub(r"-?\d{4}-\d{2}-\d{2}(T\d{2}:\d{2}:\d{2}(\.\d+)?(Z|[+-]\d{2}:\d{2})?)?", "D", t)
     t = re.sub(r"\d{2}:\d{2}:\d{2}(\.\d+)?(Z|[+-]\d{2}:\d{2})?", "T", t)
-    if re.search(r"[A-Za-z_][\w.\-]*\(", t):
-        return True
+    if re.search(r"[A-Za-z_][\w.\-]*\s*\(", t):
+        return True      # a function call (XPath allows white space before the parenthesis)
     if "+" in t or "*" in t or "|" in t:
         return True
     if " div " in t or " mod " in t:
@@ -254,7 +254,7 @@ def expected_control(n: RNode):
     if tag is None:
         return None
     c = n.cells
-    labelled = has_any(c, "label") or has_any(c, "hint")
+    labelled = has_any(c, "label") or has_any(c, "hint") or any(has_any(c, m) for m in ("image", "audio", "video", "big-image"))
     if (("calculation" in c) or ("trigger" in c)) and not labelled:
         return None
     return tag
